@@ -817,6 +817,29 @@ def run_sel(r, obs, ctl):
                         break
                 del first
     obs.nontrivial = len(seen) >= 2
+    # a class leaf asks isinstance every time: a type registered with an ABC after the selector
+    # has already seen it is selected from then on
+    import abc
+
+    class Shape(abc.ABC):
+        pass
+
+    class Late(object):
+        pass
+    for roe in (True, False):
+        sel_abc = lena.flow.Selector(Shape, raise_on_error=roe)
+        first = [sel_abc(Late()), sel_abc((Late(), {"a": 1})), sel_abc(5)]
+        Shape.register(Late)
+        second = [sel_abc(Late()), sel_abc((Late(), {"a": 1})), sel_abc(5)]
+        ctl.evals += 1
+        if first != [False, False, False] or second != [True, True, False]:
+            ctl.fail("selector-cls-wrong-result:type-registered-later",
+                     "Selector(ABC) on instances of a class registered with the ABC after the "
+                     "first evaluation: before %r, after %r (expected all False, then True, True, "
+                     "False)" % (first, second))
+
+        class Late(object):     # a new class for the next round
+            pass
 
 
 def _to_dd(v):
@@ -994,8 +1017,19 @@ def run_group(r, obs, ctl):
         flow2 = [flow[-1]] + flow[::-1]
         flow2 = [(100 + i) if not isinstance(v, tuple) else (100 + i, R.cp(v[1]))
                  for i, v in enumerate(flow2)]
+        if isinstance(flow[-1], tuple) and len(flow) % 3:
+            # the very context object of the last value before the reset (a reader that
+            # attaches one context dictionary to all values of a file)
+            flow2[0] = (100, flow[-1][1])
         fresh = lena.flow.GroupBy(as_form(gbl, r["form"]), as_form(mgl, r["form"]))
-        gb.reset()
+        if len(flow) % 2:
+            gb.reset()
+        else:
+            # the deprecated alias of reset()
+            import warnings
+            with warnings.catch_warnings():
+                warnings.simplefilter("ignore")
+                gb.clear()
         for v in flow2:
             gb.fill(v)
             fresh.fill(v)
